@@ -5,9 +5,11 @@ package c06
 import (
 	"context"
 	"fmt"
+	"runtime"
 	"sort"
 	"strings"
 	"sync"
+	"sync/atomic"
 	"testing"
 	"time"
 
@@ -44,9 +46,38 @@ type xCase struct {
 	Mode       string         `json:"mode"` // conn | transport
 	Brokers    int            `json:"brokers"`
 	Goroutines [][]call       `json:"goroutines"`
-	DeadlineMs int            `json:"deadline_ms"` // conn mode: SetDeadline for the whole Conn (0 = none)
-	IdleMs     int            `json:"idle_ms"`     // transport idle timeout
-	Sched      map[string]int `json:"sched"`       // schedule point -> yields
+	DeadlineMs int            `json:"deadline_ms"`       // conn mode: SetDeadline for the whole Conn (0 = none)
+	IdleMs     int            `json:"idle_ms"`           // transport idle timeout
+	Sched      map[string]int `json:"sched"`             // schedule point -> yields
+	Barrier    bool           `json:"barrier,omitempty"` // conn mode: the goroutines issue their i-th calls at the same instant
+}
+
+// barrier releases n goroutines together, round after round.  The waiters spin (there are at most as many as cores), so
+// that they leave the barrier within nanoseconds of each other: windows of a few instructions need that.
+type barrier struct {
+	n     int32
+	count atomic.Int32
+	gen   atomic.Int32
+}
+
+func newBarrier(n int) *barrier { return &barrier{n: int32(n)} }
+
+func (b *barrier) wait() {
+	g := b.gen.Load()
+	if b.count.Add(1) == b.n {
+		b.count.Store(0)
+		b.gen.Add(1)
+		return
+	}
+	t0 := time.Now()
+	for i := 0; b.gen.Load() == g; i++ {
+		if i%4096 == 4095 {
+			if time.Since(t0) > 2*time.Second {
+				return // a goroutine that failed early must not hold the others
+			}
+			runtime.Gosched()
+		}
+	}
 }
 
 func init() { ev.Register("xtalk", func(tb ev.TB, c xCase) { run(tb, c) }) }
@@ -191,11 +222,15 @@ func run(tb ev.TB, c xCase) (labels []string, nontrivial bool) {
 		} else {
 			conn.SetDeadline(time.Now().Add(5 * time.Second))
 		}
+		bar := newBarrier(len(c.Goroutines))
 		for _, g := range c.Goroutines {
 			wg.Add(1)
 			go func(g []call) {
 				defer wg.Done()
 				for _, k := range g {
+					if c.Barrier {
+						bar.wait()
+					}
 					o := outcome{c: k}
 					switch k.Kind {
 					case "offset":
@@ -465,6 +500,18 @@ func genCase(t *rapid.T, mode string) xCase {
 			}
 			calls = append(calls, k)
 		}
+		if mode == "transport" && rapid.IntRange(0, 2).Draw(t, "lateThenNext") == 0 {
+			// the deterministic form of "an exchange is abandoned, its answer arrives late, the next call follows on the same
+			// route": a call whose deadline (1-3 ms) ends while the broker holds the answer (10-30 ms), then two plain calls
+			kind := rapid.SampledFrom([]string{"offset", "coordinator", "committed"}).Draw(t, "lateKind2")
+			tag++
+			late := call{Kind: kind, Tag: tag, TimeoutUs: rapid.SampledFrom([]int{1000, 2000, 3000}).Draw(t, "lateTimeoutUs"), Fault: "hold", FaultArg: rapid.IntRange(10, 30).Draw(t, "lateHoldMs")}
+			tag++
+			n1 := call{Kind: kind, Tag: tag}
+			tag++
+			n2 := call{Kind: rapid.SampledFrom(kinds).Draw(t, "nextKind"), Tag: tag}
+			calls = append([]call{late, n1, n2}, calls...)
+		}
 		c.Goroutines = append(c.Goroutines, calls)
 	}
 	for _, p := range []string{"conn.peeked", "conn.wrote", "transport.beforeRelease", "batch.closing"} {
@@ -515,7 +562,7 @@ func TestTransportCrossTalk(t *testing.T) {
 func TestConnHammer(t *testing.T) {
 	rapid.Check(t, func(t *rapid.T) {
 		// the deadline bounds the case: a response nobody waits for would otherwise keep the readers spinning forever
-		c := xCase{Mode: "conn", Brokers: 1, Sched: map[string]int{}, DeadlineMs: 6000}
+		c := xCase{Mode: "conn", Brokers: 1, Sched: map[string]int{}, DeadlineMs: 6000, Barrier: rapid.IntRange(0, 3).Draw(t, "barrier") != 0}
 		ng := rapid.IntRange(6, 16).Draw(t, "goroutines")
 		n := rapid.SampledFrom([]int{150, 400, 800}).Draw(t, "calls")
 		kinds := []string{"offset", "partitions", "partitions", "coordinator", "committed"}
